@@ -31,7 +31,7 @@ package replication
 //@   ghost after call applyFn#1: a.applyCalls = ite(err == nil, a.applyCalls + 1, a.applyCalls)
 //@ loop (*WALBatchApplier).ApplyEntries#1
 //@   invariant[C13] len(entries) > 0 && entries[0].SequenceNumber == old(a.expectedNextSeq) && old(a.expectedNextSeq) == old(a.maxAppliedSeq) + 1
-//@   invariant[C13] a.applyCalls == old(a.applyCalls) + idx && (idx == 0 ==> a.appliedUpTo == old(a.appliedUpTo)) && (idx > 0 ==> a.appliedUpTo == entries[idx-1].SequenceNumber && lastAppliedSeq == a.appliedUpTo)
+//@   invariant[C13] a.applyCalls == old(a.applyCalls) + idx && (idx == 0 ==> a.appliedUpTo == old(a.appliedUpTo)) && (idx > 0 ==> a.appliedUpTo == entries[idx-1].SequenceNumber)
 //@   invariant[C13] forall j int :: 0 <= j && j < idx ==> entries[j].SequenceNumber == old(a.expectedNextSeq) + j
 //@   invariant[C13] ApplInv(a) && a.maxAppliedSeq == old(a.maxAppliedSeq) + idx
 //@   invariant[C13] forall i int :: 0 <= i && i < len(entries) ==> entries[i] != nil && entries[i].SequenceNumber < 18446744073709551615
